@@ -297,6 +297,19 @@ pub fn check_unary(sh: &mut Shard, members: &[IG], ccw: bool, lat: &Lat, verbose
         Ok(r) => r,
         Err(_) => return,
     };
+    // the same collection handed over as MultiPolygons (pairs of members; an empty MultiPolygon leads when the
+    // number of members is odd - e.g. the seed of a fold): same consistently wound rings, same region
+    let mut groups: Vec<MultiPolygon<f64>> = polys.chunks(2).map(|c| MultiPolygon::new(c.to_vec())).collect();
+    if polys.len() % 2 == 1 {
+        groups.insert(0, MultiPolygon::new(vec![]));
+    }
+    let res_groups = match call(|| unary_union(&groups)) {
+        Ok(r) => r,
+        Err(p) => {
+            sh.violation("unary_union.panic|MultiPolygon|-", det("unary_union.panic", "no panic".into(), p));
+            return;
+        }
+    };
     let stride = if (bb.1 - bb.0).max(bb.3 - bb.2) > 10 { 2 } else { 1 };
     let pts = match guard(|| samples(&refs, bb, lat, stride)) {
         Ok(p) => p,
@@ -309,6 +322,11 @@ pub fn check_unary(sh: &mut Shard, members: &[IG], ccw: bool, lat: &Lat, verbose
         sh.eval(1);
         let exp = ins.iter().any(|&i| i);
         let (g1, g2) = (inside_f(&res, *x, *y), inside_f(&fold, *x, *y));
+        let g3 = inside_f(&res_groups, *x, *y);
+        if g3 != exp {
+            sh.violation("unary_union.region|MultiPolygon|-", det("unary_union.region", format!("point ({x},{y}) covered: {exp}"), format!("{g3}; result for the members grouped in MultiPolygons {:?}", res_groups)));
+            break;
+        }
         if g1 != exp || g2 != g1 {
             sh.violation("unary_union.region|Polygon|-", det("unary_union.region", format!("point ({x},{y}) covered: {exp} (fold of unions: {g2})"), format!("{g1}; result {:?}", res)));
             break;
@@ -585,6 +603,11 @@ pub fn run(ctx: &Ctx, sh: &mut Shard) {
                     }
                 }
                 let ccw = r.chance(1, 2);
+                // an empty member (no ring at all) now and then, half of the time in front
+                if r.chance(1, 4) {
+                    let at = if r.chance(1, 2) { 0 } else { r.range(0, ms.len() as i64) as usize };
+                    ms.insert(at, IG::Polygon(vec![]));
+                }
                 // repeated vertices (incl. a repeated closing vertex, which winding detection has to skip), ring start at
                 // the lexicographically least vertex one time in three (that is where the winding pivot sits)
                 if r.chance(1, 2) {
